@@ -647,6 +647,29 @@ func ruleSortedNames(p *core.Program) []core.Obligation {
 			return true, "" // nil: no names
 		case *ssa.Slice:
 			return sortedValue(x.X, use, depth+1)
+		case *ssa.Call:
+			// a helper of the repository that returns a sorted list (sortedGroupingLabels(grouping)): every
+			// return hands back a value that was sorted before the return
+			callee := x.Call.StaticCallee()
+			if callee == nil || callee.Blocks == nil || !p.InRepo(callee) || callee.Signature.Results().Len() != 1 {
+				return false, fmt.Sprintf("value of unrecognised origin %T", v)
+			}
+			okAll, why := true, ""
+			n := 0
+			core.EachInstr(callee, func(rb *ssa.BasicBlock, _ int, ins ssa.Instruction) {
+				ret, isRet := ins.(*ssa.Return)
+				if !isRet || rb == callee.Recover {
+					return
+				}
+				n++
+				if ok2, w := sortedValue(core.RetResults(ret)[0], ret, depth+1); !ok2 {
+					okAll, why = false, "helper "+callee.Name()+" returns a value that is not sorted ("+w+")"
+				}
+			})
+			if n == 0 {
+				return false, "helper without return"
+			}
+			return okAll, why
 		}
 		return false, fmt.Sprintf("value of unrecognised origin %T", v)
 	}
